@@ -59,6 +59,56 @@ def zero_test(c):
     return None
 
 
+def atom_zero(a, what):
+    """True / False when the path atom `a` decides whether an integer whose text mentions `what` is zero (comparison with
+    0 / 1 in any orientation, or a `match` on the integer itself); None when the atom says nothing about it"""
+    c, v = a[1], a[2]
+    zt = zero_test(c)
+    if zt is not None:
+        if what not in show(zt[0]):
+            return None
+        tv = guards.truth(v)
+        return tv if zt[1] else not tv
+    if isinstance(c, tuple) and c[0] not in ("bin", "discr", "un") and what in show(c):
+        r = guards.rng(c)
+        if c[0] == "call" and not (r or c[0] == "ok"):
+            return None
+        if isinstance(v, int) and not isinstance(v, bool):
+            return v == 0 if (r is None or r != (0, 1)) else None
+        if isinstance(v, tuple) and v[0] == "not" and 0 in v[1]:
+            return False
+    return None
+
+
+def _minus_one(t, what):
+    """`t` is x - 1 for an x whose text mentions `what`: x - 1, x.checked_sub(1) (also its `?` payload), wrapping/saturating"""
+    t = strip_refs(t)
+    while isinstance(t, tuple) and t[0] in ("ok", "try"):
+        t = strip_refs(t[1])
+    if not isinstance(t, tuple):
+        return False
+    if t[0] == "bin" and t[1] in ("Sub", "SubWithOverflow"):
+        return what in show(t[2]) and guards.rng(t[3]) == (1, 1)
+    if t[0] == "call" and t[1].split("::")[-1] in ("checked_sub", "wrapping_sub", "saturating_sub") and len(t[3]) == 2:
+        return what in show(t[3][0]) and guards.rng(t[3][1]) == (1, 1)
+    return False
+
+
+def _negation_of(t, what):
+    """`t` contains the arithmetic negation of an x whose text mentions `what`: -x, x.wrapping_neg(), 0 - x, 0.wrapping_sub(x)"""
+    for x in mir.walk_expr(t):
+        if x[0] == "un" and x[1] == "Neg" and what in show(x[2]):
+            return True
+        if x[0] == "call" and x[1].split("::")[-1] in ("wrapping_neg", "checked_neg") and x[3] and what in show(x[3][0]):
+            return True
+        if x[0] == "call" and x[1].split("::")[-1] in ("wrapping_sub", "checked_sub") and len(x[3]) == 2 and \
+                guards.rng(x[3][0]) == (0, 0) and what in show(x[3][1]):
+            return True
+        if x[0] == "bin" and x[1] in ("Sub", "SubWithOverflow") and guards.rng(x[2]) == (0, 0) and what in show(x[3]):
+            return True
+    return False
+
+
 def peel_opt(t, variant_only=False):
     """strip value-preserving Option adaptors: x.copied() / x.cloned() / x.as_ref() / x.as_deref(); with `variant_only` also
     the adaptors that keep Some/None but change the payload (x.map(f), x.inspect(f))"""
@@ -901,8 +951,7 @@ def dedup_strings(an, rep):
                     found = walk.atom_variant(a)
             okk = len(lookups) == 1 and not stores and not reads
             if okk:
-                idarg = show(lookups[0][5][1])
-                okk = ("wrapping_neg" in idarg or "Neg" in idarg) and "read_var_i32" in idarg
+                okk = _negation_of(lookups[0][5][1], "read_var_i32")
             if found == "Some":
                 seen.add("hit")
                 R.check(okk and kind == "ok", r.key, "back-reference", "negative value must look up id = -value and return it", None,
@@ -965,9 +1014,9 @@ def ref_protocol(an, rep):
         zero = None
         for a in p.atoms():
             c = a[1]
-            if zero_test(c) and "read_var_u32" in show(zero_test(c)[0]):
-                tv = guards.truth(a[2])
-                zero = tv if zero_test(c)[1] else not tv
+            z = atom_zero(a, "read_var_u32")
+            if z is not None and c[0] != "discr":
+                zero = z
         reads = called(p, "BinaryInput::read_var_u32")
         lookups = called(p, "State::get_ref_by_id")
         if zero is True:
@@ -1011,8 +1060,17 @@ def state_tables(an, rep):
         for p in walk.walk(b, core):
             v = None
             for a in p.atoms():
-                if a[1][0] == "discr" and "entry" in show(a[1][1]):
+                c = a[1]
+                if c[0] == "discr" and "entry" in show(c[1]):
                     v = walk.atom_variant(a)
+                elif c[0] == "discr":
+                    # lookup form: `if let Some(id) = self.ids_by_x.get(&key)` ... else insert
+                    g = peel_opt(c[1], True)
+                    if g[0] == "call" and g[1].endswith("::get") and g[3] and "$self" in show(g[3][0]) and by_id not in show(g[3][0]):
+                        v = {"Some": "Occupied", "None": "Vacant"}.get(walk.atom_variant(a))
+                elif c[0] == "call" and c[1].endswith("::contains_key") and c[3] and "$self" in show(c[3][0]) and \
+                        by_id not in show(c[3][0]):
+                    v = "Occupied" if guards.truth(a[2]) else "Vacant"
             if v is None or p.outcome[0] != "return":
                 continue
             seen.add(v)
@@ -1027,7 +1085,7 @@ def state_tables(an, rep):
                 if okk:
                     i_next = p.events.index(nexts[0])
                     okk = all(p.events.index(c) > i_next for c in inserts)
-                    ids = [show(c[5][-1]) if "VacantEntry" in c[2] else show(c[5][1]) for c in inserts]
+                    ids = [" ".join(show(x) for x in (c[5][-1:] if "VacantEntry" in c[2] else c[5][1:])) for c in inserts]
                     okk = okk and all(idf in s for s in ids) and idf in show(ret[4][0])
                     okk = okk and any(by_id in show(c[5][0]) for c in inserts)
                 R.check(okk, b.key, "vacant", "a new key must take the next id (after exactly one next()), insert it into both "
@@ -1111,9 +1169,11 @@ def sequence_reader(an, rep):
             c = a[1]
             if c[0] == "discr" and any(n == "KnownSize" for _, n in c[2]):
                 state = walk.atom_variant(a)
-            elif zero_test(c) and "remaining" in show(zero_test(c)[0]):
-                tv = guards.truth(a[2])
-                zero = tv if zero_test(c)[1] else not tv
+            elif c[0] != "discr" and atom_zero(a, "remaining") is not None:
+                zero = atom_zero(a, "remaining")
+            elif c[0] == "discr" and strip_refs(c[1])[0] == "try" and _minus_one(strip_refs(c[1])[1], "remaining"):
+                # `remaining.checked_sub(1)?` in a function returning Option: None (residual) iff remaining == 0
+                zero = {"Continue": False, "Break": True}.get(walk.atom_variant(a))
             elif c[0] == "discr" and "<Option<T> as BinaryDeserializer>::deserialize" in show(c[1]):
                 nm = walk.atom_variant(a)
                 if nm in ("Some", "None"):
@@ -1121,7 +1181,7 @@ def sequence_reader(an, rep):
                 elif nm in ("Err", "Ok/Some", "Ok/None"):
                     opt = nm
         ret = strip_refs(p.outcome[1])
-        is_none = ret[0] == "agg" and ret[3] == "None"
+        is_none = (ret[0] == "agg" and ret[3] == "None") or (ret[0] == "errprop" and _minus_one(ret[1], "remaining"))
         dec_t = called(p, "BinaryDeserializer::deserialize")
         dec_o = called(p, "<Option<T> as BinaryDeserializer>::deserialize")
         if state == "KnownSize":
@@ -1131,7 +1191,7 @@ def sequence_reader(an, rep):
             elif zero is False:
                 seen.add("known/item")
                 st = [s for s in p.stores() if "remaining" in show(s[1])]
-                okk = len(st) == 1 and "Sub" in show(st[0][2]) and guards.rng(st[0][2][3]) == (1, 1) and len(dec_t) == 1 and not is_none
+                okk = len(st) == 1 and _minus_one(st[0][2], "remaining") and len(dec_t) == 1 and not is_none
                 R.check(okk, nb.key, "known/item", "remaining > 0 must decrement by one and decode one T", None,
                         sample={"known": "remaining -= 1; Some(T::deserialize)"})
         elif state == "UnknownSize":
